@@ -78,14 +78,14 @@ def main():
         d = fresh_copy()
         try:
             p = os.path.join(d, m["file"])
-            s = open(p).read()
+            s = open(p, encoding="latin-1").read()
             cnt = s.count(m["old"])
             if cnt != m.get("count", 1):
                 results.append((m["name"], "PATTERN-MISMATCH (%d occurrences)" % cnt))
                 print("%-40s %s" % results[-1], flush=True)
                 continue
             s = s.replace(m["old"], m["new"])
-            open(p, "w").write(s)
+            open(p, "w", encoding="latin-1").write(s)
             ok, tail = baseline_ok(d)
             if not ok:
                 results.append((m["name"], "INVALID-MUTANT (baseline fails: %s)" % tail))
